@@ -9,3 +9,12 @@ var All = map[string]*mon.Prop{}
 func register(p *mon.Prop) { All[p.ID] = p }
 
 func releaseOnly(string) []string { return []string{"release"} }
+
+// releaseThenGo126 runs the release flavour and, in the thorough tier, repeats the identical case
+// list in a binary built with the second toolchain (go1.26.8): results must not depend on the compiler.
+func releaseThenGo126(tier string) []string {
+	if tier == "thorough" {
+		return []string{"release", "go126"}
+	}
+	return []string{"release"}
+}
